@@ -279,6 +279,10 @@ class Verifier:
         except Exception as e:  # checker fault
             meta["error"] = "checker fault: " + "".join(traceback.format_exception(e))[-1500:]
             results = [OblResult(f"{key}/fault", key, "fault", "", "fault", ERROR, reason=meta["error"])]
+        # decorators wrap the body in something else: obligations of pyvc/decorators.py
+        from . import decorators as _dec
+        results = list(results) + _dec.obligations(self.repo, fi, key, lambda label, clause, kind, status, reason:
+                                                   OblResult(label, key, clause, "", kind, status, reason=reason, lineno=fi.node.lineno))
         meta["seconds"] = round(time.time() - t0, 3)
         return results, meta
 
